@@ -589,6 +589,11 @@ func check(c Case) error {
 	return err
 }
 
+// TestSideBySide: independent sessions on several goroutines at once.
+func TestSideBySide(t *testing.T) {
+	ev.Parallel(t, prop, "side-by-side", 3, 100, 40, genCase, func(c Case) error { _, e := runCase(c); return e })
+}
+
 func TestSession(t *testing.T) {
 	ev.Rapid(t, "session", 1500, 40000, func(t *rapid.T) {
 		c := genCase(t)
@@ -639,7 +644,7 @@ func replayers() map[string]func(json.RawMessage) error {
 		}
 		return ev.Try(func() error { _, e := runCase(c); return e })
 	}
-	return map[string]func(json.RawMessage) error{"session": f, "boundaries": f}
+	return map[string]func(json.RawMessage) error{"session": f, "boundaries": f, "side-by-side": f}
 }
 
 func TestRegress(t *testing.T) { ev.Regress(t, prop, replayers()) }
